@@ -102,7 +102,8 @@ func (a *asm) returnCode(code []byte) *asm {
 type gen struct {
 	rng  *rand.Rand
 	u    *universe
-	self int // slot of the contract the program is for (0: init code of a created contract)
+	self int             // slot of the contract the program is for (0: init code of a created contract)
+	last *common.Address // target of the last call statement of the program being generated
 }
 
 func (g *gen) amount() uint64 {
@@ -121,6 +122,12 @@ func (g *gen) amount() uint64 {
 }
 
 func (g *gen) target() common.Address {
+	t := g.target1()
+	g.last = &t
+	return t
+}
+
+func (g *gen) target1() common.Address {
 	// every fixed slot of the universe, contracts more often; sometimes the contract itself
 	switch r := g.rng.Intn(12); {
 	case r < 6:
@@ -170,8 +177,15 @@ func (g *gen) terminator(a *asm, allowReturnCode bool) {
 	case r == 16:
 		pc := len(a.b)
 		a.op(opJUMPDEST).push(uint64(pc)).op(opJUMP) // endless loop: out of gas
+	case r < 19:
+		a.pushAddr(g.target1()).op(opSELFDESTRUCT)
 	case r < 21:
-		a.pushAddr(g.target()).op(opSELFDESTRUCT)
+		// to the account called last: if that one destructed itself meanwhile the value is lost with it
+		if g.last != nil {
+			a.pushAddr(*g.last).op(opSELFDESTRUCT)
+		} else {
+			a.pushAddr(g.target1()).op(opSELFDESTRUCT)
+		}
 	case r < 23:
 		if g.self != 0 {
 			a.pushAddr(g.u.addr[g.self]).op(opSELFDESTRUCT) // to the own address
@@ -232,6 +246,7 @@ func (g *gen) statement(a *asm, depth int) {
 // program: code of contract slot `self`
 func (g *gen) program() []byte {
 	a := &asm{}
+	g.last = nil
 	n := g.rng.Intn(7)
 	for i := 0; i < n; i++ {
 		g.statement(a, 0)
